@@ -552,8 +552,9 @@ def r18(ctx):
         if v['k'] != 'BinaryOperator' or v.get('op') != '&&':
             continue
         r = fn.nodes[fn.strip(v['rhs'], casts=True)]
-        if not (r.get('k') == 'BinaryOperator' and r.get('op') == '==' and fn.val(r['rhs']) == 0 and
-                fn.nodes[fn.strip(r['lhs'], casts=True)].get('k') == 'DeclRefExpr'):
+        if not (r.get('k') == 'BinaryOperator' and r.get('op') == '==' and (
+                (fn.val(r['rhs']) == 0 and fn.nodes[fn.strip(r['lhs'], casts=True)].get('k') == 'DeclRefExpr') or
+                (fn.val(r['lhs']) == 0 and fn.nodes[fn.strip(r['rhs'], casts=True)].get('k') == 'DeclRefExpr'))):
             continue
         l = fn.nodes[fn.strip(v['lhs'], casts=True)]
         if not (l.get('k') == 'UnaryOperator' and l.get('op') == '!'):
